@@ -418,6 +418,7 @@ class Emitter:
         self.out = []
         self.extern_prefix = extern_prefix
         self.keep_names = set(keep_names)
+        self.indirect_protos = set()
 
     # --- names
     def fname(self, name):
@@ -694,6 +695,8 @@ class Emitter:
                 self.out.append("/* NOT TRANSLATED: %s -- %s */" % (name, str(e).replace("*/", "* /")[:200]))
                 self.out.append(self.proto(name, f.ret, f.params) + "\n{\n    VUNTRANSLATED();\n" +
                                 ("" if ctype(self.m, f.ret) == "void" else "    return 0;\n") + "}")
+        if self.indirect_protos:
+            self.out[gpos:gpos] = ["/* environment pair functions for calls through caller-supplied pointers */"] + sorted(self.indirect_protos)
         return "\n".join(self.out) + "\n"
 
     def emit_function(self, f):
@@ -1005,12 +1008,37 @@ class Emitter:
         if not mm:
             raise Unsupported("call: " + rhs)
         if mm.group(1).startswith("%"):
-            if self.pair:
-                raise Unsupported("indirect call in pair mode: " + rhs)
             targs = []
             for a in split_top(mm.group(4)):
                 ty, rest_a = parse_type_prefix(strip_attrs(a))
                 targs.append((ty, rest_a))
+            if self.pair:
+                # a call through a pointer (caller-supplied callback): the target must not depend on secrets; the callee is a
+                # pair function of the environment, named after the signature: verif_indirect_<ret>_<params>__pair(fn, a..., b..., &ret_b)
+                short = {"uint8_t *": "p", "uint64_t": "i64", "uint32_t": "i32", "uint16_t": "i16", "uint8_t": "i8", "void": "v"}
+                rct = ctype(m, rty)
+                sig = short.get(rct, "x") + "_" + "".join(short.get(ctype(m, t), "x") for t, _ in targs)
+                fn = "verif_indirect_%s__pair" % sig
+                fa, fb = self.const_expr(mm.group(1), "_a"), self.const_expr(mm.group(1), "_b")
+                self.leak(body, "indirect call target", fa, fb)
+                al = ["(uint8_t *)" + fa] + [self.const_expr(v, "_a") for _, v in targs] + [self.const_expr(v, "_b") for _, v in targs]
+                has_ret = not isinstance(m.resolve(rty), VoidTy)
+                proto_args = ["uint8_t *fn"] + [ctype(m, t) for t, _ in targs] * 2
+                if has_ret:
+                    rb = "callret_%s_b" % cid(dst if dst else "x")
+                    decls[rb] = rct
+                    al.append("&" + rb)
+                    proto_args.append(rct + " *ret_b")
+                self.indirect_protos.add("%s %s(%s);" % (rct, fn, ", ".join(proto_args)))
+                call = "%s(%s)" % (fn, ", ".join(al))
+                if has_ret and dst is not None:
+                    decls["v_" + cid(dst) + "_a"] = rct
+                    decls["v_" + cid(dst) + "_b"] = rct
+                    body.append("v_%s_a = %s;" % (cid(dst), call))
+                    body.append("v_%s_b = %s;" % (cid(dst), rb))
+                else:
+                    body.append(call + ";")
+                return
             fpt = "%s (*)(%s)" % (ctype(m, rty), ", ".join(ctype(m, t) for t, _ in targs) or "void")
             call = "((%s)%s)(%s)" % (fpt, self.const_expr(mm.group(1), ""), ", ".join(self.const_expr(v, "") for _, v in targs))
             if dst is not None and not isinstance(m.resolve(rty), VoidTy):
